@@ -493,9 +493,16 @@ BUFFERED_SOCKET = {
             'sock.send': ('send', ['Bytes'], 'Int'), 'time.time': ('time', [], 'Time')},
 }
 _C12 = []
+_C12_TIED = 5          # how many of the methods below have their tie theorem in C12/SrcTie.lean
 for _py, _params, _res, _thm in [
         ('recv_size', {'size': 'Int', 'timeout': 'Unset (Option Time)'}, 'Bytes', 'C12.src_recv_size_eq_model'),
-        ]:
+        ('recv_until', {'delimiter': 'Bytes', 'timeout': 'Unset (Option Time)', 'maxsize': 'Unset (Option Int)',
+                        'with_delimiter': 'Bool'}, 'Bytes', 'C12.src_recv_until_eq_model'),
+        ('peek', {'size': 'Int', 'timeout': 'Unset (Option Time)'}, 'Bytes', 'C12.src_peek_eq_model'),
+        ('recv_close', {'timeout': 'Unset (Option Time)', 'maxsize': 'Unset (Option Int)'}, 'Bytes',
+         'C12.src_recv_close_eq_model'),
+        ('recv', {'size': 'Int', 'flags': 'Int', 'timeout': 'Unset (Option Time)'}, 'Bytes', 'C12.src_recv_eq_model'),
+        ][:_C12_TIED]:
     _C12.append({'module': 'boltons.socketutils', 'qualname': 'BufferedSocket.' + _py, 'lean_name': 'BufferedSocket.' + _py,
                  'cls': BUFFERED_SOCKET, 'params': _params, 'result': _res, 'tie_theorem': _thm,
                  'translator': 'py2lean_c12', 'py': _py, 'method': True, 'kind': 'function', 'raises': True})
